@@ -14,7 +14,8 @@ RULE = ("random definitions (C02's space: four control x calibration combination
         "is driven through a sequence of 6-10 steps (predict / update of a random sensor) on the in-process Python "
         "filter (itself under the C04/C05 contract monitors) and on the generated C++ filter compiled under "
         "ASan+UBSan, the C++ side re-seeded from the Python estimate at every step, plus a free-running tail of 3 "
-        "steps; state, covariance, stored innovation and accept/reject are compared by name.  non-trivial = "
+        "steps; every third unit first generates the same filter with other noise and calibration values in the "
+        "same process; state, covariance, stored innovation and accept/reject are compared by name.  non-trivial = "
         "sequence with >=2 updates of a sensor with >=2 readings; distinct = sha256(definition, k, cse pair, seed)")
 ASSUMPTIONS = [
     "tolerance 1e-9 relative to max(1, |value|, cond(S)*magnitude); stand-in inverse (Gauss-Jordan) vs LAPACK",
